@@ -53,7 +53,7 @@ Theorem document_no_injection : forall o v,
 Proof.
   intros o v. exists (normalize [document o v]). split; [apply document_well_formed|].
   intros n Hn.
-  destruct (wfb_vocab _ (tv_wfb o v (o_css o) (o_summary_color o) (o_name o) (o_root_path o) (o_collapse o) (o_include o) (o_exclude o))) as (H1 & H2 & H3).
+  destruct (wfb_vocab _ (tv_wfb o v (o_css o) (o_summary_color o) (o_title o) (o_name o) (o_root_path o) (o_collapse o) (o_include o) (o_exclude o))) as (H1 & H2 & H3).
   fold (tree_view o v) in H1, H2, H3.
   assert (T : incl (tags_of (document o v)) (document_tags ++ vocabulary_tags)).
   { unfold document, head_of, tags_of. cbn [collect flat_map app]. rewrite app_nil_r.
@@ -79,25 +79,25 @@ Proof. intros o v. unfold document, head_of. cbn [texts_of flat_map app]. rewrit
 
 (* ------------------------------------------------------------------------------------------ *)
 (* the head does not depend on the data: values of the same shape get the same style block       *)
-Lemma needs_summary_shape : forall o name a b, same_shape a b -> needs_summary o name a = needs_summary o name b.
+Lemma needs_summary_shape : forall o title name a b, same_shape a b -> needs_summary_t o title name a = needs_summary_t o title name b.
 Proof.
-  intros o name a b H. destruct H as [lk tn cn raw rep fmt tn' cn' raw' rep' fmt' Hl|]; [|reflexivity].
+  intros o title name a b H. unfold needs_summary_t. generalize (match title with Some _ => Some (KInt 0%Z) | None => name end). clear name. intros name. destruct H as [lk tn cn raw rep fmt tn' cn' raw' rep' fmt' Hl|]; [|reflexivity].
   unfold needs_summary. now rewrite Hl.
 Qed.
 
-Lemma tvs_shape : forall o a b, same_shape a b -> forall name path incl excl, tvs o name path incl excl a = tvs o name path incl excl b.
+Lemma tvs_shape : forall o a b, same_shape a b -> forall title name path incl excl, tvs o title name path incl excl a = tvs o title name path incl excl b.
 Proof.
-  intros o. induction a as [lk tn cn raw rep fmt|sq tn cn fmt items IH] using pv_ind'; intros b H name path incl excl.
-  - assert (E := needs_summary_shape o name _ _ H). inv H. cbn [tvs]. now rewrite E.
-  - assert (E := needs_summary_shape o name _ _ H). inv H. cbn [tvs]. rewrite E.
+  intros o. induction a as [lk tn cn raw rep fmt|sq tn cn fmt items IH] using pv_ind'; intros b H title name path incl excl.
+  - assert (E := needs_summary_shape o title name _ _ H). inv H. cbn [tvs]. now rewrite E.
+  - assert (E := needs_summary_shape o title name _ _ H). inv H. cbn [tvs]. rewrite E.
     match goal with Hf : Forall2 _ items items' |- _ => rename Hf into HF end.
     assert (Ek : map fst items = map fst items').
     { clear -HF. induction HF as [|x y l l' [Hxy _] _ IHl]; [reflexivity|]. cbn [map]. now rewrite Hxy, IHl. }
     assert (Er :
-               map (fun kc : key * pv => (fst kc, if is_label_at o sq path (fst kc) then key_styles o ++ tvs o None (path ++ [fst kc]) None None (snd kc)
-                                                  else tvs o (Some (fst kc)) (path ++ [fst kc]) None None (snd kc))) items
-             = map (fun kc : key * pv => (fst kc, if is_label_at o sq path (fst kc) then key_styles o ++ tvs o None (path ++ [fst kc]) None None (snd kc)
-                                                  else tvs o (Some (fst kc)) (path ++ [fst kc]) None None (snd kc))) items').
+               map (fun kc : key * pv => (fst kc, if is_label_at o sq path (fst kc) then key_styles o ++ tvs o None None (path ++ [fst kc]) None None (snd kc)
+                                                  else tvs o None (Some (fst kc)) (path ++ [fst kc]) None None (snd kc))) items
+             = map (fun kc : key * pv => (fst kc, if is_label_at o sq path (fst kc) then key_styles o ++ tvs o None None (path ++ [fst kc]) None None (snd kc)
+                                                  else tvs o None (Some (fst kc)) (path ++ [fst kc]) None None (snd kc))) items').
     { clear -HF IH. induction HF as [|x y l l' [Hxy Hs] _ IHl]; [reflexivity|].
       inv IH. cbn [map]. rewrite IHl by assumption. rewrite Hxy.
       match goal with Hx : forall b, same_shape (snd x) b -> _ |- _ => rewrite !(Hx _ Hs) end. reflexivity. }
